@@ -12,7 +12,7 @@ import props_table as T  # noqa: E402
 pids = [json.loads(l)["id"] for l in open(os.path.join(root, "properties.jsonl")) if l.strip()]
 checks, na = [], []
 for pid in pids:
-    if pid in T.CLAIMED:
+    if pid in T.CLAIMED and pid not in getattr(T, 'PENDING', {}):
         c = T.CLAIMED[pid]
         checks.append({
             "property_id": pid,
@@ -26,7 +26,7 @@ for pid in pids:
             "technique": c["technique"],
         })
     else:
-        na.append({"property_id": pid, "reason": getattr(T, "NA_REASONS", {}).get(pid, T.NOT_YET)})
+        na.append({"property_id": pid, "reason": getattr(T, 'PENDING', {}).get(pid) or getattr(T, "NA_REASONS", {}).get(pid, T.NOT_YET)})
 man = {
     "version": 1,
     "setup_cmd": "cd lean && lake build PybropsModel AuditCmd",
